@@ -29,7 +29,7 @@ LEVEL_TEXT = (
 )
 LEVEL_NOTE = "Trusted: the interpreter's bookkeeping of which scope is innermost for the recording task (lexical, inherited by spawned tasks); sync completion callbacks read the values."
 ASSUMPTIONS = [
-    "after a merge function raised, the stored value for that (scope, type) is unspecified (only 'does not raise' is asserted)",
+    "after a merge function raised, the stored value for that (scope, type) must be either the value kept so far (failing record dropped) or the failing record alone; anything else - e.g. nothing stored - is a violation",
     "records arriving after a scope completed only assert 'does not raise'",
 ]
 REQUIRED_CLASSES = ["fold-noncommutative", "two-levels", "concurrent-recorders", "raising-merge", "outside-any-scope"]
